@@ -7,7 +7,8 @@
 //           EXC    an exception reached the caller: <detail> = "clipper2 <what>" | "bad_alloc" | "std <what>"
 //           SAN    a sanitizer report was written (ASan/UBSan; the child may have continued for recoverable UBSan
 //                  checks); <detail> = the report, newlines replaced by " | "
-//           LEAK   allocated-bytes accounting differs after the operation AND LeakSanitizer confirms; report follows
+//           LEAK   allocated-bytes accounting differs after the operation AND LeakSanitizer confirms; <detail> =
+//                  "[after-return] <digest>" or "[after-exception] <what>", then " || " and the LeakSanitizer report
 //           CRASH  the child died from a signal / unexpected exit code without a sanitizer report
 //           HANG   CPU-time limit (--timeout-ms of CPU time, RLIMIT_CPU) or 8x that in wall-clock time exceeded (child killed)
 //           MEM    resident-set limit exceeded (child killed)
@@ -548,7 +549,7 @@ template <typename F> static Verdict supervise(const std::string& line, long tim
   bool san = se.find("runtime error:") != std::string::npos || se.find("Sanitizer:") != std::string::npos;
   if (killed) { v.status = killed; v.detail = progress + "rss_peak_mb=" + std::to_string(peak) + " " + flat(se, 1500); }
   else if (WIFSIGNALED(st) && (WTERMSIG(st) == SIGXCPU || WTERMSIG(st) == SIGKILL)) { v.status = "HANG"; v.detail = progress + "cpu-limit signal=" + std::to_string(WTERMSIG(st)) + " " + flat(se, 1500); }
-  else if (WIFEXITED(st) && WEXITSTATUS(st) == 77) { v.status = "LEAK"; v.detail = flat(se, 6000); }
+  else if (WIFEXITED(st) && WEXITSTATUS(st) == 77) { v.status = "LEAK"; v.detail = flat(det, 300) + " || " + flat(se, 6000); }
   else if (san) { v.status = "SAN"; v.detail = progress + "exit=" + std::to_string(WIFEXITED(st) ? WEXITSTATUS(st) : -WTERMSIG(st)) + " " + flat(se, 6000); }
   else if (WIFEXITED(st) && WEXITSTATUS(st) == 0) { v.status = "OK"; v.detail = det; }
   else if (WIFEXITED(st) && WEXITSTATUS(st) == 10) { v.status = "EXC"; v.detail = det; }
@@ -597,6 +598,7 @@ int main(int argc, char** argv) {
       // something is still allocated: ask LeakSanitizer whether it is unreachable (a leak) or merely cached
       if (a1 != a0 && __lsan_do_recoverable_leak_check()) code = 77;
 #endif
+      if (code == 77) { const char* how = rc ? "[after-exception] " : "[after-return] "; ssize_t w0 = write(out_fd, how, std::strlen(how)); (void)w0; }
       ssize_t w = write(out_fd, g_out, std::strlen(g_out)); (void)w;
       return code;
     });
